@@ -8,17 +8,23 @@
 (3) order: per subscriber non-decreasing MdibVersion of episodic / waveform / description reports under writer threads, and a
     lock-granularity exploration with the writer observed (foreign transactions at every point where it holds neither lock).
 (4) periodic store: every (MdibVersion, states) entry retained for periodic reports equals the published content of that version, also
-    after later transactions changed the same states; periodic reports flushed onto the wire are checked the same way.
+    after later transactions changed the same states AND after the application went on modifying the state objects it holds from the
+    transaction (vf.c04_handout); periodic reports on the wire (flushed, and sent by the real fixed-interval loop under a stub timer) are
+    checked the same way, incl. the SourceMds of their parts.
+(5) order under faults of another peer: one subscriber fails in nine ways while the same report is slowly delivered to bystanders and
+    further commits follow - the bystanders still see non-decreasing MdibVersions (sync + async managers).
 """
 from __future__ import annotations
 
+import os
 import sys
 import threading
 import time
 
 from lxml import etree
 
-from .. import core, mdibops
+from .. import core, loopback, mdibops
+from ..c04_handout import HandoutTap, scribble
 from ..history import History, canon, canon_descriptor, first_difference, tolerant_equal, versions_of
 from ..mdibharness import MDIB_FILES, World
 from ..sched import Instrumented, LockProxy
@@ -142,6 +148,11 @@ def check_transaction(ctx, reports, before, after, detail, opk):
         for mod, src, d in r.descriptors:
             c = canon_descriptor(d)
             h = d.Handle
+            want_src = (before if mod == 'Del' else after)['src'].get(h)
+            ctx.count('truth.descriptor_source_mds_checked')
+            if src is not None and want_src is not None and src != want_src:
+                ctx.witness('truth.source_mds.descriptor', 'a descriptor is reported under the part of another MDS',
+                            {**detail, 'handle': h, 'modification': mod, 'part_source_mds': src, 'descriptor_source_mds': want_src})
             if mod == 'Del':
                 if h in after['descr']:
                     ctx.witness(f'truth.deleted_but_present.{opk}', 'a descriptor is reported as deleted but is in the MDIB at that version', {**detail, 'handle': h})
@@ -216,9 +227,105 @@ def validate_wire(ctx, world, seen: set, label):
             body = root.find(f'{{{S12}}}Body')
             name = etree.QName(body[0]).localname if body is not None and len(body) else 'EmptyBody'
             ctx.count(f'schema.{name}')
+            if b'IsReferenceParameter' in data:
+                ctx.count('schema.messages_with_reference_parameters')
             if errors:
                 ctx.witness(f'schema.invalid.{name}', 'a message on the wire does not validate against the bundled schemas',
                             {**label, 'which': which, 'path': e.path, 'errors': errors[:3], 'message_head': data[:600]})
+
+
+def _scribble_all(ctx, tap, rng, nested):
+    """the application modifies every state object it still holds from its last transaction(s); nothing of that is committed."""
+    n = 0
+    for st in tap.take():
+        try:
+            if scribble(st, rng, nested=nested):
+                ctx.count('periodic.handout_scribbled')
+                ctx.count(f'periodic.handout_scribbled.{state_kind(st)}')
+                n += 1
+        except Exception as ex:  # noqa: BLE001
+            ctx.count(f'periodic.handout_scribble_error.{type(ex).__name__}')
+    return n
+
+
+STORE_LISTS = ('_periodic_metric_reports', '_periodic_alert_reports', '_periodic_component_state_reports',
+               '_periodic_context_state_reports', '_periodic_operational_state_reports')
+
+
+def _walk_store(ctx, handler, hist, detail, counter='periodic.store_states_checked'):
+    """every (MdibVersion, states) entry retained for periodic reports must equal the content the MDIB had at that version."""
+    for lst_name in STORE_LISTS:
+        with handler._periodic_reports_lock:
+            entries = list(getattr(handler, lst_name, []))
+        for ps in entries:
+            snap_v = hist.by_version.get(ps.mdib_version)
+            for st in ps.states:
+                ctx.count(counter)
+                is_ctx = st.is_context_state
+                h = st.Handle if is_ctx else st.DescriptorHandle
+                want = (snap_v['ctx'] if is_ctx else snap_v['states']).get(h) if snap_v else None
+                if want is None or not tolerant_equal(canon(st), want):
+                    ctx.witness(f'periodic.store_changed.{lst_name.strip("_")}',
+                                'a state copy retained for periodic reports no longer shows the values of the version it is labelled with',
+                                {**detail, 'labelled_version': ps.mdib_version, 'handle': h,
+                                 'diff': first_difference(want, canon(st)) if want else 'state not in MDIB at that version'})
+
+
+def _refparam_managers(comps):
+    """provider components: the subscription managers that identify a subscription by a reference parameter."""
+    from sdc11073.provider.subscriptionmgr import ReferenceParamSubscriptionsManager
+    from sdc11073.provider.subscriptionmgr_async import BICEPSSubscriptionsManagerBaseAsync, SubscriptionsManagerReferenceParamAsync
+    is_async = any(issubclass(c, BICEPSSubscriptionsManagerBaseAsync) for c in comps.subscriptions_manager_class.values())
+    cls = SubscriptionsManagerReferenceParamAsync if is_async else ReferenceParamSubscriptionsManager
+    comps.subscriptions_manager_class = {k: cls for k in comps.subscriptions_manager_class}
+
+
+def _add_refparam_consumer(world, not_subscribed_actions=None):
+    """World.add_consumer with the consumer's reference-parameter subscription manager (the rest is the same)."""
+    import uuid
+    from sdc11073.consumer.consumerimpl import SdcConsumer
+    from sdc11073.consumer.consumerimpl import default_components_factory
+    from sdc11073.consumer.subscription import ClientSubscriptionManagerReferenceParams
+    from sdc11073.definitions_sdc import SdcV1Definitions
+    from ..mdibharness import _SyncDispatcher
+    comps = default_components_factory()
+    comps.soap_client_class = loopback.mk_soap_client_class(world.network)
+    comps.action_dispatcher_class = _SyncDispatcher
+    comps.subscription_manager_class = ClientSubscriptionManagerReferenceParams
+    server = world.network.new_server()
+    consumer = SdcConsumer(world.provider_address, SdcV1Definitions, ssl_context_container=None, validate=True, components=comps,
+                           epr=uuid.UUID(int=0x5000 + len(world.consumers)))
+    consumer.start_all(shared_http_server=server, not_subscribed_actions=not_subscribed_actions)
+    consumer.vf_server = server
+    world.consumers.append(consumer)
+    return consumer
+
+
+def _cross_mds_ops(mdib, rng):
+    """directed transactions whose descriptors / states belong to different MDSs (empty for a single-MDS MDIB)."""
+    cat = mdibops.catalog(mdib)
+
+    def per_mds(handles):
+        by = {}
+        for h in handles:
+            by.setdefault(mdib.descriptions.handle.get_one(h).source_mds, []).append(h)
+        return [sorted(v)[0] for _, v in sorted(by.items(), key=lambda kv: str(kv[0]))][:3]
+    chans = per_mds(cat['channel'])
+    if len(chans) < 2:
+        return []
+    new = [f'xmds{i}' for i in range(len(chans))]
+    ops = [{'op': 'descr_multi', 'sub': 'two_children', 'steps': [['create', n, c] for n, c in zip(new, chans)], 'iface': 'classic'},
+           {'op': 'descr_update', 'handles': list(new), 'iface': 'classic'},
+           {'op': 'descr_update', 'handles': list(reversed(chans)), 'iface': 'entity'},
+           {'op': 'descr_multi', 'sub': 'delete_two_siblings', 'steps': [['delete', n] for n in reversed(new)], 'iface': 'classic'}]
+    for kind in ('metric', 'alert', 'component'):
+        handles = per_mds(cat[kind])
+        if len(handles) >= 2:
+            ops.append({'op': kind, 'handles': handles, 'iface': 'classic'})
+            ops.append({'op': kind, 'handles': list(reversed(handles)), 'iface': 'entity'})
+    for op in ops:
+        op['seed'] = rng.randrange(1 << 30)
+    return ops
 
 
 def w_truth(ctx: core.Ctx, arg):
@@ -227,22 +334,35 @@ def w_truth(ctx: core.Ctx, arg):
     for hno in range(arg['n']):
         mdib_file = MDIB_FILES[(arg['i'] + hno) % len(MDIB_FILES)]
         async_mgr = (arg['i'] + hno // 2) % 2 == 1
-        world = World(mdib_file, role_provider=False, async_mgr=async_mgr, periodic_reports_interval=3600)
+        # alternative classes of the anchored mechanism: subscriptions identified by reference parameters instead of a path element
+        # (both roles: the notifications then carry the consumer's reference parameters in the SOAP header), other InstanceIds
+        refparam = (arg['i'] + hno) % 3 == 2
+        instance_id = (1, 7, None, 0)[(arg['i'] // 2 + hno) % 4]
+        world = World(mdib_file, role_provider=False, async_mgr=async_mgr, periodic_reports_interval=3600, instance_id=instance_id,
+                      components_hook=_refparam_managers if refparam else None)
         mdib = world.mdib
         hist = History(mdib)
-        c1, _ = world.add_consumer(with_mdib=False)
+        add = _add_refparam_consumer if refparam else (lambda w, **kw: w.add_consumer(with_mdib=False, **kw)[0])
+        c1 = add(world)
         actions = mdib.sdc_definitions.Actions
-        c2, _ = world.add_consumer(with_mdib=False, not_subscribed_actions=[actions.EpisodicAlertReport, actions.Waveform])
+        c2 = add(world, not_subscribed_actions=[actions.EpisodicAlertReport, actions.Waveform])
+        ctx.count(f'truth.worlds.{"refparam" if refparam else "path"}.{"async" if async_mgr else "sync"}')
         subs = [('all', f'127.0.0.1:{c1.vf_server.server_port}', None),
                 ('no_alert_no_waveform', f'127.0.0.1:{c2.vf_server.server_port}', {'EpisodicAlertReport', 'WaveformStream'})]
         reader = c1.msg_reader
         memo = {}
         weights = {k: v for k, v in mdibops.DEFAULT_WEIGHTS.items() if k not in ('reject',)}
-        label = {'mdib_file': mdib_file, 'async_mgr': async_mgr, 'history': [arg['i'], hno]}
+        label = {'mdib_file': mdib_file, 'async_mgr': async_mgr, 'history': [arg['i'], hno], 'dispatch': 'refparam' if refparam else 'path',
+                 'instance_id': instance_id}
         handler = world.provider._periodic_reports_handler
+        tap = HandoutTap(mdib)
+        srng = ctx.rng('truth-scribble', arg['i'], hno)  # own stream: the histories stay what they were
         shapes = []
-        for step in range(arg['len']):
-            op = mdibops.gen_op(rng, mdib, memo, weights)
+        # directed tail (after the seeded part, which stays what it was): ONE transaction that touches several MDSs
+        tail = _cross_mds_ops(mdib, ctx.rng('truth-cross-mds', arg['i'], hno))
+        ctx.count('truth.cross_mds_ops', len(tail))
+        for step in range(arg['len'] + len(tail)):
+            op = mdibops.gen_op(rng, mdib, memo, weights) if step < arg['len'] else tail[step - arg['len']]
             before = hist.last
             n0 = len(world.network.log)
             ap = mdibops.apply_op(mdib, op, memo)
@@ -276,21 +396,10 @@ def w_truth(ctx: core.Ctx, arg):
                     bad = [r.name for r in reports if r.name in excluded]
                     if bad:
                         ctx.witness('truth.filter_ignored', 'a subscriber received a report kind it did not subscribe', {**detail, 'reports': bad})
+            # the application re-uses the state objects it holds (handed out by / handed in to the transaction) as scratch data
+            _scribble_all(ctx, tap, srng, nested=step % 2 == 0)
             # periodic store: every retained entry equals the published content of the version it is labelled with
-            for lst_name in ('_periodic_metric_reports', '_periodic_alert_reports', '_periodic_component_state_reports',
-                             '_periodic_context_state_reports', '_periodic_operational_state_reports'):
-                for ps in getattr(handler, lst_name, []):
-                    snap_v = hist.by_version.get(ps.mdib_version)
-                    for st in ps.states:
-                        ctx.count('periodic.store_states_checked')
-                        is_ctx = st.is_context_state
-                        h = st.Handle if is_ctx else st.DescriptorHandle
-                        want = (snap_v['ctx'] if is_ctx else snap_v['states']).get(h) if snap_v else None
-                        if want is None or not tolerant_equal(canon(st), want):
-                            ctx.witness(f'periodic.store_changed.{lst_name.strip("_")}',
-                                        'a state copy retained for periodic reports no longer shows the values of the version it is labelled with',
-                                        {**detail, 'labelled_version': ps.mdib_version, 'handle': h,
-                                         'diff': first_difference(want, canon(st)) if want else 'state not in MDIB at that version'})
+            _walk_store(ctx, handler, hist, detail)
             if step % 10 == 9:
                 _flush_periodic(ctx, world, hist, handler, subs[0][1], reader, label)
         validate_wire(ctx, world, seen_msgs, label)
@@ -356,31 +465,69 @@ def _flush_periodic(ctx, world, hist, handler, netloc, reader, label):
             del lst[:]
         if tmp:
             send(tmp, world.mdib.mdib_version_group)
-    for e in world.network.log[n0:]:
+    _check_periodic_wire(ctx, world.network.log[n0:], netloc, reader, hist, label)
+
+
+def _src_while_published(hist, is_ctx, handle, state_version, descr_handle) -> set:
+    out = set()
+    for snap_v in hist.by_version.values():
+        c = (snap_v['ctx'] if is_ctx else snap_v['states']).get(handle)
+        if c is not None and versions_of(c)[1] == state_version:
+            src = snap_v['src'].get(descr_handle)
+            if src is not None:
+                out.add(src)
+    return out
+
+
+def _check_periodic_wire(ctx, entries, netloc, reader, hist, label, counter='periodic.wire_states_checked'):
+    """Periodic*Report messages delivered to one subscriber: every state equals what was published under its StateVersion and travels
+    in the part of the MDS it belongs to."""
+    for e in entries:
         if e.netloc != netloc or not e.body:
             continue
         root = etree.fromstring(e.body)
         b = root.find(f'{{{S12}}}Body')
+        if b is None or not len(b):
+            continue
         rep = b[0]
-        ctx.count(f'periodic.wire.{etree.QName(rep).localname}')
+        name = etree.QName(rep).localname
+        if not name.startswith('Periodic'):
+            continue
+        ctx.count(f'periodic.wire.{name}')
         for part in rep.findall(f'{{{MSG}}}ReportPart'):
+            src = part.find(f'{{{MSG}}}SourceMds')
+            src = src.text if src is not None else None
             for child in part:
                 if etree.QName(child).localname in STATE_TAGS:
                     st = reader.get_state_container_class(_qname_of(child)).from_node(child)
                     is_ctx = st.is_context_state
                     h = st.Handle if is_ctx else st.DescriptorHandle
                     pub = hist.published.get(('ctx' if is_ctx else 'state', h, st.StateVersion))
-                    ctx.count('periodic.wire_states_checked')
+                    ctx.count(counter)
                     if pub is None or not tolerant_equal(pub, canon(st)):
-                        ctx.witness('periodic.wire_state_content', 'a periodic report carries a state that differs from what was published under that StateVersion',
+                        ctx.witness('periodic.wire_state_content',
+                                    'a periodic report carries a state that differs from what was published under that StateVersion',
                                     {**label, 'handle': h, 'state_version': st.StateVersion,
                                      'diff': first_difference(pub, canon(st)) if pub else 'never published'})
+                    # the MDS the descriptor belonged to while the MDIB held this StateVersion (a handle can be deleted and created
+                    # again under another MDS: the retained copy then rightly travels under the MDS of ITS version)
+                    want_src = _src_while_published(hist, is_ctx, h, st.StateVersion, st.DescriptorHandle)
+                    ctx.count('periodic.wire_source_mds_checked')
+                    if src is not None and want_src and src not in want_src:
+                        ctx.witness(f'periodic.wire_source_mds.{name}', 'a periodic report carries a state in the part of another MDS',
+                                    {**label, 'handle': h, 'state_version': st.StateVersion, 'part_source_mds': src,
+                                     'descriptor_source_mds': sorted(want_src)})
 
 
 # ------------------------------------------------------------------------------------------------
-def _versions_per_subscriber(world, netlocs):
+def _mix_async(ctx, i) -> bool:
+    """sample MDIB = i mod 4; the manager flavour alternates per job, per block of four jobs and per seed so that every MDIB meets both."""
+    return (i + i // len(MDIB_FILES) + ctx.seed) % 2 == 1
+
+
+def _versions_per_subscriber(world, netlocs, start=0):
     seq = {n: [] for n in netlocs}
-    for e in world.network.log:
+    for e in world.network.log[start:]:
         if e.netloc in seq and e.body:
             i = e.body.find(b'MdibVersion="')
             if i < 0:
@@ -394,7 +541,7 @@ def _versions_per_subscriber(world, netlocs):
 
 def w_order_stress(ctx: core.Ctx, arg):
     mdib_file = MDIB_FILES[arg['i'] % len(MDIB_FILES)]
-    world = World(mdib_file, role_provider=False, async_mgr=arg['i'] % 2 == 1)
+    world = World(mdib_file, role_provider=False, async_mgr=_mix_async(ctx, arg['i']))
     mdib = world.mdib
     consumers = [world.add_consumer(with_mdib=False)[0] for _ in range(2)]
     netlocs = [f'127.0.0.1:{c.vf_server.server_port}' for c in consumers]
@@ -532,7 +679,7 @@ def w_order_explore(ctx: core.Ctx, arg):
     """the writer is observed: at every point where it holds neither the transaction lock nor the MDIB lock a foreign transaction runs."""
     rng = ctx.rng('order-explore', arg['i'])
     mdib_file = MDIB_FILES[arg['i'] % len(MDIB_FILES)]
-    world = World(mdib_file, role_provider=False, async_mgr=arg['i'] % 2 == 1)
+    world = World(mdib_file, role_provider=False, async_mgr=_mix_async(ctx, arg['i']))
     mdib = world.mdib
     consumer, _ = world.add_consumer(with_mdib=False)
     netloc = f'127.0.0.1:{consumer.vf_server.server_port}'
@@ -703,11 +850,227 @@ def w_periodic_retrievability(ctx: core.Ctx, arg):
     world.stop()
 
 
+def w_periodic_simple(ctx: core.Ctx, arg):
+    """the REAL fixed-interval loop (PeriodicReportsHandler._simple_periodic_reports_send_loop, what start_all(periodic_reports_interval=..)
+    runs in a thread) executed synchronously with a stub timer.  While the loop 'waits for the next interval' the application commits
+    states of every kind through both interfaces, then goes on using ITS state objects as scratch data (never committed), and commits
+    the same states again.  After every step the store is walked; what the loop then puts on the wire is compared with the content that
+    was published under the StateVersion each state carries."""
+    import contextlib
+    import io
+    from sdc11073.provider import periodicreports
+    rng = ctx.rng('periodic-simple', arg['i'])
+    mdib_file = MDIB_FILES[arg['i'] % len(MDIB_FILES)]
+    async_mgr = (arg['i'] + arg['i'] // len(MDIB_FILES)) % 2 == 1
+    world = World(mdib_file, role_provider=False, async_mgr=async_mgr)
+    mdib = world.mdib
+    handler = periodicreports.PeriodicReportsHandler(mdib, world.provider.hosted_services, 1)
+    world.provider._periodic_reports_handler = handler  # as start_all(periodic_reports_interval=1) does - without starting the thread
+    consumer, _ = world.add_consumer(with_mdib=False)
+    netloc = f'127.0.0.1:{consumer.vf_server.server_port}'
+    reader = consumer.msg_reader
+    hist = History(mdib)
+    tap = HandoutTap(mdib)
+    memo = {}
+    label = {'mdib_file': mdib_file, 'async_mgr': async_mgr, 'workload': 'simple periodic loop'}
+    kinds = ['metric', 'alert', 'component', 'operational', 'context', 'descr_with_state', 'descr_update']
+    rounds = {'n': 0, 'log0': len(world.network.log)}
+
+    def commit(op, detail):
+        mdibops.apply_op(mdib, op, memo)
+        hist.record()
+        hist.problems.clear()
+        ctx.count('periodic.simple.commits')
+        _walk_store(ctx, handler, hist, detail, counter='periodic.simple.store_states_checked')
+
+    def application_activity(rno):
+        for k in range(arg['ops']):
+            kind = kinds[(rno + k) % len(kinds)]
+            op = mdibops.gen_op(rng, mdib, memo, {kind: 1})
+            if kind in mdibops.STATE_OPS or kind == 'context':
+                op['iface'] = ['classic', 'entity'][(rno // len(kinds) + k) % 2]
+            detail = {**label, 'round': rno, 'op': op}
+            commit(op, detail)
+            n = _scribble_all(ctx, tap, rng, nested=(rno + k) % 2 == 0)
+            ctx.case(('periodic-simple', kind, op.get('iface'), op.get('sub'), n > 0, async_mgr))
+            _walk_store(ctx, handler, hist, {**detail, 'after': 'the application modified its own state objects'},
+                        counter='periodic.simple.store_states_checked')
+            if k % 2 == 1 and op['op'] in mdibops.STATE_OPS:
+                # a later commit changes the same states again before the period elapses
+                commit(dict(op, seed=op.get('seed', 0) + 1), {**detail, 'after': 'second commit on the same states'})
+                _scribble_all(ctx, tap, rng, nested=True)
+
+    class StubTimer:
+        def __init__(self, period_in_seconds):
+            pass
+
+        def remaining_time(self):
+            return 0.0
+
+        def wait_next_interval_begin(self):
+            # what the previous round put on the wire
+            _check_periodic_wire(ctx, world.network.log[rounds['log0']:], netloc, reader, hist, label, counter='periodic.simple.wire_states_checked')
+            rounds['log0'] = len(world.network.log)
+            rounds['n'] += 1
+            if rounds['n'] > arg['rounds']:
+                handler._run_periodic_reports_thread = False
+                return 0.0
+            application_activity(rounds['n'])
+            return 0.0
+    real_timer = periodicreports.intervaltimer.IntervalTimer
+    periodicreports.intervaltimer.IntervalTimer = StubTimer
+    try:
+        handler._run_periodic_reports_thread = True
+        with contextlib.redirect_stdout(io.StringIO()):
+            handler._simple_periodic_reports_send_loop()
+    finally:
+        periodicreports.intervaltimer.IntervalTimer = real_timer
+    _check_periodic_wire(ctx, world.network.log[rounds['log0']:], netloc, reader, hist, label, counter='periodic.simple.wire_states_checked')
+    ctx.count('periodic.simple.rounds', rounds['n'] - 1)
+    validate_wire(ctx, world, set(), label)
+
+
+# faults of ONE peer while it is served a notification.  'handled' = the subscription managers treat it as a problem of that connection.
+PEER_FAULTS = {
+    'garbage_answer': lambda: loopback.Respond(200, 'OK', b'OK', name='garbage_answer'),  # non-XML body: XMLSyntaxError in the SOAP client
+    'html_answer': lambda: loopback.Respond(200, 'OK', b'<html><body>hello</body></html>', name='html_answer'),
+    'http500_empty': lambda: loopback.Respond(500, 'Internal Server Error', b'', name='http500_empty'),
+    'http404_text': lambda: loopback.Respond(404, 'Not Found', b'no such path', name='http404_text'),
+    'refused': lambda: loopback.Raise(ConnectionRefusedError('injected'), name='refused'),
+    'reset': lambda: loopback.Raise(ConnectionResetError('injected'), name='reset'),
+    'timeout': lambda: loopback.Raise(TimeoutError('injected'), name='timeout'),
+    'oserror': lambda: loopback.Raise(OSError('injected: no route to host'), name='oserror'),
+    'runtime_error': lambda: loopback.Raise(RuntimeError('injected'), name='runtime_error'),
+}
+
+
+def w_order_faulty_peer(ctx: core.Ctx, arg):
+    """one subscriber misbehaves while the same report is still on its way to other (slow) subscribers, and further commits follow
+    (same thread, or a second writer that already waits at the transaction lock).  Whatever the fault of the OTHER peer is, the
+    bystanders must see non-decreasing MdibVersions.  (Whether a commit raises, and whether a bystander that comes later in the list of
+    the synchronous manager still gets that report, is not judged here - only counted.)"""
+    rng = ctx.rng('order-fault', arg['i'])
+    mdib_file = MDIB_FILES[arg['i'] % len(MDIB_FILES)]
+    async_mgr = arg['async']
+    faults = sorted(PEER_FAULTS)
+    rng.shuffle(faults)
+    faults = faults[:arg['cases']]
+    world = World(mdib_file, role_provider=False, async_mgr=async_mgr)
+    mdib = world.mdib
+    # subscription order: early bystander, the peers that will fail (a failing subscription is ended: one peer per case), late bystander
+    consumers = [world.add_consumer(with_mdib=False)[0] for _ in range(len(faults) + 2)]
+    netlocs = [f'127.0.0.1:{c.vf_server.server_port}' for c in consumers]
+    bystanders = {netlocs[0]: 'early', netlocs[-1]: 'late'}
+    armed = {'fault': None, 'fault_netloc': None, 'slow': set(), 'delay': arg['delay']}
+
+    def policy(entry):
+        if armed['fault'] is not None and entry.netloc == armed['fault_netloc'] and entry.method == 'POST':
+            fault, armed['fault'] = armed['fault'], None
+            ctx.count(f'order.fault.injected.{fault}')
+            return PEER_FAULTS[fault]()
+        return None
+
+    def delay(netloc, path, data):
+        if netloc in armed['slow']:
+            armed['slow'].discard(netloc)
+            ctx.count('order.fault.slow_deliveries')
+            return armed['delay']
+        return 0
+    world.network.policy = policy
+    world.network.async_delay = delay
+    memo = {}
+    kinds = ['metric', 'alert', 'component', 'context', 'operational', 'rt', 'descr_update']
+    # how slow 'slow' is: long enough for a few more commits on THIS machine under ITS present load (the verdict never depends on it: on
+    # a correct tree the commit simply waits that long; it only keeps the detection power when the machine is busy)
+    slowest = 0.0
+    for kind in kinds[:4]:
+        t0 = time.perf_counter()
+        mdibops.apply_op(mdib, mdibops.gen_op(rng, mdib, memo, {kind: 1}), memo)
+        slowest = max(slowest, time.perf_counter() - t0)
+    slow_delay = min(3.0, max(arg['delay'], 12 * slowest))
+    ctx.extra['order_fault_slow_delay_ms'] = [int(slow_delay * 1000)]
+    armed['delay'] = slow_delay
+    for cno, fault in enumerate(faults):
+        kind = kinds[(cno + arg['i']) % len(kinds)]
+        later_kinds = [kinds[(cno + arg['i'] + 1 + j) % len(kinds)] for j in range(2)]
+        threaded = (cno + arg['i']) % 2 == 1
+        n0 = len(world.network.log)
+        v0 = mdib.mdib_version
+        first_op = mdibops.gen_op(rng, mdib, memo, {kind: 1})
+        outcomes = []
+        second = None
+        old_pre = mdib.pre_commit_handler
+        if threaded:
+            # the second writer is released while the first is inside its commit: it waits at the transaction lock
+            go = threading.Event()
+
+            def pre_commit(m, tr, _go=go, _old=old_pre):
+                _go.set()
+                if callable(_old):
+                    _old(m, tr)
+
+            def second_writer(_go=go, _cno=cno, _kind=later_kinds[0]):
+                _go.wait(120)
+                with mdib.mdib_lock:
+                    op2 = mdibops.gen_op(ctx.rng('order-fault-2nd', arg['i'], _cno), mdib, {'n': 10 ** 6 + _cno, '_prelude': []}, {_kind: 1})
+                outcomes.append(mdibops.apply_op(mdib, op2, None).outcome)
+            mdib.pre_commit_handler = pre_commit
+            second = threading.Thread(target=second_writer, daemon=True)
+            second.start()
+        armed.update(fault=fault, fault_netloc=netlocs[1 + cno], slow=set(bystanders) if async_mgr else set())
+        outcomes.append(mdibops.apply_op(mdib, first_op, memo).outcome)
+        if threaded:
+            second.join(300)
+            mdib.pre_commit_handler = old_pre
+            if second.is_alive():
+                ctx.not_decided('order fault case: second writer did not finish')
+                break
+        for j in range(1 if threaded else 0, 2):
+            op = mdibops.gen_op(rng, mdib, memo, {later_kinds[j]: 1})
+            outcomes.append(mdibops.apply_op(mdib, op, memo).outcome)
+        fault_fired = armed['fault'] is None
+        slow_used = async_mgr and not armed['slow']
+        armed.update(fault=None, slow=set())
+        committed = list(range(v0 + 1, mdib.mdib_version + 1))
+        # a delivery that was still in flight when its commit ended arrives late: give it the chance to arrive before the order is read
+        # (bounded polling, nothing to wait for on a correct tree; if it never arrives the order that was seen is judged)
+        if slow_used and committed:
+            for _ in range(1000):
+                per = _versions_per_subscriber(world, list(bystanders), start=n0)
+                if all(committed[0] in seq for seq in per.values()):
+                    break
+                time.sleep(0.01)
+            else:
+                ctx.count('order.fault.slow_delivery_not_seen')
+        per = _versions_per_subscriber(world, list(bystanders), start=n0)
+        ctx.count('order.fault.cases')
+        if fault_fired:
+            ctx.count('order.fault.cases_with_fault')
+        ctx.count(f'order.fault.commit_outcome.{"raised" if any(o != "ok" for o in outcomes) else "ok"}')
+        ctx.case(('order-fault', fault, kind, async_mgr, threaded))
+        for netloc, seq in per.items():
+            ctx.count('order.fault.bystander_notifications', len(seq))
+            if any(y < x for x, y in zip(seq, seq[1:])):
+                ctx.witness(f'order.fault_of_other_peer.{"async" if async_mgr else "sync"}',
+                            'a subscriber received reports with decreasing MdibVersion: a report was still on its way to it when its commit ended (ANOTHER subscriber failed meanwhile) and the reports of later commits overtook it',
+                            {'mdib_file': mdib_file, 'fault_of_other_peer': fault, 'first_commit': kind, 'second_writer_thread': threaded,
+                             'bystander': bystanders[netloc], 'versions_in_arrival_order': seq, 'committed': committed, 'commit_outcomes': outcomes})
+            lost = [v for v in committed if v not in seq]
+            if lost and fault_fired:
+                ctx.count(f'order.fault.bystander_lost_report.{"async" if async_mgr else "sync"}.{bystanders[netloc]}.{fault}')
+    # no world.stop(): stopping a dozen consumers only waits for their housekeeping threads; the job's process ends here
+
+
 def run(ctx: core.Ctx):
     ctx.rule = ('truth: seeded histories x {sync, async manager} x 4 sample MDIBs, 2 subscribers with different filters, every committed transaction '
                 'compared with the snapshot diff; schema: every distinct message on the wire validated; order: writer-observed lock-granularity '
                 'exploration {7 kinds}^2 x points x k foreign transactions + writer thread stress; periodic store walked after every commit. '
-                'distinct = op-shape sequence resp. (writer op, foreign op, point, k)')
+                'truth worlds also vary the dispatch flavour (path / reference parameter managers in both roles) and the InstanceId; after every '
+                'commit the application scribbles on the state objects it holds (handed out by / handed in to the transaction) before the store '
+                'is walked; the real fixed-interval periodic loop is run with a stub timer over directed commits of every kind x interface; '
+                'order under peer faults: 9 fault kinds of ONE subscriber x 7 commit kinds x {same thread, second writer at the lock} while the '
+                'same report is slowly delivered to two bystanders. '
+                'distinct = op-shape sequence resp. (writer op, foreign op, point, k) resp. (fault, commit kind, manager, threaded)')
     q = ctx.quick
     jobs = [['w_truth', {'i': k, 'n': 2 if q else 24, 'len': 40 if q else 120}] for k in range(8 if q else 16)]
     jobs += [['w_order_stress', {'i': k, 'writers': 2 + k % 3 * 2, 'ops': 60 if q else 600}] for k in range(4 if q else 16)]
@@ -715,7 +1078,14 @@ def run(ctx: core.Ctx):
     jobs += [['w_periodic_retrievability', {'i': k, 'rounds': 15 if q else 150}] for k in range(4 if q else 8)]
     jobs += [['w_poison', {'i': k, 'n': 4 if q else 40}] for k in range(2 if q else 8)]
     jobs += [['w_order_realsocket', {'i': k, 'writers': 2 + k % 3, 'ops': 40 if q else 400}] for k in range(4 if q else 8)]
+    jobs += [['w_periodic_simple', {'i': k + 4 * (ctx.seed % 2), 'rounds': 4 if q else 40, 'ops': 7}] for k in range(4 if q else 8)]
+    jobs += [['w_order_faulty_peer', {'i': k + ctx.seed, 'async': k % 4 != 3, 'cases': len(PEER_FAULTS), 'delay': 0.3}] for k in range(4 if q else 16)]
+    t0 = time.time()
     core.fanout(ctx, MODULE, 'dispatch', jobs, timeout=3000)
+    walls = sorted(ctx.extra.get('job_wall_s', []), key=lambda x: -x[2])
+    ctx.extra['job_wall_sum_s'] = round(sum(w[2] for w in walls))  # CPU-ish cost of the tier (the wall of a run depends on the machine-wide slots)
+    if os.environ.get('VERIF_DIAG') == '1':
+        print(f'  [C04] diagnostic: {len(jobs)} jobs in {time.time() - t0:.0f}s, sum of job walls {sum(w[2] for w in walls):.0f}s, slowest {walls[:4]}')
     ctx.floor('order.real.notifications', 200)
     ctx.floor('order.real.final_mirror_checked', 4)
     ctx.floor('periodic.loop.states_checked', 100)
@@ -729,7 +1099,22 @@ def run(ctx: core.Ctx):
     ctx.floor('order.explore_runs', 49)
     ctx.floor('periodic.store_states_checked', 200)
     ctx.floor('periodic.wire_states_checked', 50)
+    ctx.floor('periodic.handout_scribbled', 400)
+    ctx.floor('periodic.simple.rounds', 8)
+    ctx.floor('periodic.simple.store_states_checked', 500)
+    ctx.floor('periodic.simple.wire_states_checked', 80)
+    ctx.floor('order.fault.cases_with_fault', 24)
+    ctx.floor('order.fault.slow_deliveries', 24)
+    ctx.floor('order.fault.bystander_notifications', 120)
+    ctx.floor('schema.messages_with_reference_parameters', 100)
+    ctx.floor('truth.descriptor_source_mds_checked', 50)
+    ctx.floor('truth.cross_mds_ops', 20)
 
 
 def dispatch(ctx: core.Ctx, job):
-    globals()[job[0]](ctx, job[1])
+    t0 = time.time()
+    try:
+        globals()[job[0]](ctx, job[1])
+    finally:
+        # diagnostic only (which job is the long pole on a loaded machine); no verdict uses it
+        ctx.extra['job_wall_s'] = [[job[0], job[1].get('i'), round(time.time() - t0, 1)]]
